@@ -137,7 +137,7 @@ func normVisitPath(prm *ssa.Parameter, arg ssa.Value) (string, bool) {
 
 func checkC08(c *Ctx) {
 	r, t := c.R, c.T
-	r.Explanation = "Decides, exhaustively over the AST type definitions and for both check passes (pkg/engine/runtime/checkstmt.go and pkg/engine/runtimev2/r_check.go): (1) CHILD-VISIT: for every ast struct and every child position of it that the parser can fill (fields of type *Node, []*Node, [][2]*Node, Stmts, *BlockStmt, IfList and their nested positions), the check function dispatched for that node kind calls RunStmtCheck/RunStmtsCheck on exactly that position, and every branch condition controlling that call is a nil test of the same position, the range loop over it, the error exit of an earlier visit, or a test whose other arm rejects; (2) DISPATCH: RunStmtCheck has an arm `NodeType == K -> check(node.K())` for every kind whose struct has children (kind↔struct table derived from the ast.Wrap* constructors); (3) CALL-CHECK: RunCallExprCheck rejects an unknown function, visits the arguments, rejects a missing checker and returns the checker's verdict; FuncsMap and FuncsCheckMap have the same key set; every registered checker can reject (has a non-nil return) unless the builtin accepts any call; (4) LOOP-DEPTH: both loop checks push the loop marker before and pop it after the body visit, break/continue reject exactly when the marker stack is empty; (5) LOAD-CHECKS: ParseScript/ParseV2 accept a script only on the nil-error arm of Check, and Check runs the statement-list visitor on the whole script. Not decided: that the per-builtin shape rules are *right* (never reject a valid call) beyond the frozen shape table; where the error points (C17)."
+	r.Explanation = "Decides, exhaustively over the AST type definitions and for both check passes (pkg/engine/runtime/checkstmt.go and pkg/engine/runtimev2/r_check.go): (1) CHILD-VISIT: for every ast struct and every child position of it that the parser can fill (fields of type *Node, []*Node, [][2]*Node, Stmts, *BlockStmt, IfList and their nested positions), the check function dispatched for that node kind calls RunStmtCheck/RunStmtsCheck on exactly that position, and every branch condition controlling that call is a nil test of the same position, the range loop over it, the error exit of an earlier visit, or a test whose other arm rejects; (2) DISPATCH: RunStmtCheck has an arm `NodeType == K -> check(node.K())` for every kind whose struct has children (kind↔struct table derived from the ast.Wrap* constructors); (3) CALL-CHECK: RunCallExprCheck rejects an unknown function, visits the arguments, rejects a missing checker and returns the checker's verdict; FuncsMap and FuncsCheckMap have the same key set; every registered checker can reject (has a non-nil return) unless the builtin accepts any call; (4) LOOP-DEPTH: both loop checks push the loop marker before and pop it after the body visit, break/continue reject exactly when the marker stack is empty; (5) LOAD-CHECKS: ParseScript/ParseV2 accept a script only on the nil-error arm of Check, and Check runs the statement-list visitor on the whole script. Not decided: that the per-builtin shape rules are *right* (never reject a valid call) beyond the frozen shape table; where the error points (C17). Also included (shared with C19): the rules on the v2 argument-shape helpers CheckFnParamDef/CheckPassParam/GetParam (REJECTS, PLACEMENT, DEAD-GUARD, GETTERS), through which a v2 function table enforces arity and named-argument rules at load time."
 	k2s, s2k := kindTable(t)
 	r.FloorN("node kinds with Wrap constructor", len(k2s), 24)
 	written := parserWrittenFields(t)
@@ -146,6 +146,8 @@ func checkC08(c *Ctx) {
 	}
 	c08Registry(c)
 	c08LoadChecks(c)
+	// v2: a call's argument shape is enforced by the library helpers the host checkers call
+	c19Rules(c)
 }
 
 func c08Pass(c *Ctx, rtp string, k2s map[int64]string, s2k map[string]int64, written map[string]bool) {
